@@ -5,7 +5,7 @@ from ..core import Result, HarnessBug
 
 ID = "C09"
 LEVEL = "exploration"
-BUDGET = {"quick": 6000, "thorough": 400000}
+BUDGET = {"quick": 6000, "thorough": 1200000}
 RULE = ("case = three values of one family (Int | Float(no NaN) | String | Type | plain struct | sequences "
         "Array/List/Tuple of mixed kinds | Tree) built in generated allocation classes; all 9 ordered pairs are "
         "compared with cmp and the six predicates, then the values are used as Tree keys. non-trivial = some "
